@@ -181,10 +181,12 @@ def _split_list(bs: bytes):
     return [b"".join(bytes([t, len(v)]) + v for t, v in c) for c in items]
 
 
-def _value(node, payload: bytes):
+def _value(node, payload: bytes, short_ints=False):
     k = node["k"]
     if k == "int":
-        if len(payload) != node["w"]:
+        # accessories may send a shortened integer (e.g. the 16-bit form of an Apple-defined 128-bit type);
+        # accepted only when the caller asks for it (captured fixtures), otherwise exact width
+        if len(payload) != node["w"] and not (short_ints and 0 < len(payload) < node["w"]):
             raise Unspecified("int width")
         return int.from_bytes(payload, "big" if node["be"] else "little")
     if k == "enum":
@@ -199,9 +201,9 @@ def _value(node, payload: bytes):
     if k == "bytes":
         return bytes(payload)
     if k == "struct":
-        return ref_decode(node["fields"], payload)
+        return ref_decode(node["fields"], payload, short_ints)
     if k == "seq":
-        return [ref_decode(node["fields"], e) for e in _split_list(payload)]
+        return [ref_decode(node["fields"], e, short_ints) for e in _split_list(payload)]
     if k == "pint":
         w = node["w"]
         if len(payload) % w:
@@ -210,7 +212,7 @@ def _value(node, payload: bytes):
     raise RefParseError("field type cannot be decoded")
 
 
-def ref_decode(fields, bs: bytes):
+def ref_decode(fields, bs: bytes, short_ints=False):
     """Returns the positional value list; raises RefParseError when the specification demands a
     parse error (unknown item type), Unspecified when it does not say."""
     items = _merge(_fragments(bytes(bs)))
@@ -225,8 +227,11 @@ def ref_decode(fields, bs: bytes):
         if t in seen:
             raise Unspecified("repeated item")
         seen.add(t)
-        if len(payload) == 0:
-            raise Unspecified("empty item")
         i = tags.index(t)
-        out[i] = _value(fields[i][1], payload)
+        if len(payload) == 0:
+            if short_ints:                       # captured fixtures: an explicitly empty descriptor / id list
+                out[i] = {"bytes": b"", "str": "", "pint": [], "seq": []}.get(fields[i][1]["k"])
+                continue
+            raise Unspecified("empty item")
+        out[i] = _value(fields[i][1], payload, short_ints)
     return out
